@@ -124,6 +124,12 @@ class Command(ctypes.Structure):
             raise TypeError(
                 f"command {self.__class__.__name__} could not be created, since: {err}"
             )
+        # ctypes silently truncates values that do not fit in a field
+        for name, value in kwargs.items():
+            if isinstance(value, int) and getattr(self, name) != value:
+                raise ValueError(
+                    f"command {self.__class__.__name__}: {name}={value} cannot be encoded"
+                )
 
 
 def add_padding(fields):
